@@ -63,7 +63,7 @@ def gen(seed, tier):
         payloads.append({"id": "ncaller", "flavour": cfl, "via": "queued", "steps": [["sleep", rng.choice([0.0, ad])], ["execute", "nexec"], ["block"]], "helper": True})
     if rng.random() < 0.3:
         scripts[1] += [["sleep", ad], ["gc"]]
-    settle = 4 * ad + 3 * ad + 1.5
+    settle = 4 * ad + 3 * ad + 1.5 + sum(st["dur"] for st in knobs["stalls"])  # injected stalls delay starts legitimately
     if window:
         # submissions inside the launch window: between accept() being called and `running` being set
         scripts[0][0] = ["wait-marker", "accept-call"]
@@ -182,7 +182,7 @@ def check(h, reason):
             fl = spec["flavour"]
             if via in ("queued", "adopt"):
                 c = calls.get(pid)
-                if c is None or c.get("done") is None or c["done"]["kind"] != "adopt-returned" or c["done"]["seq"] > q_seq or c["done"]["t"] + 0.5 > quiescent["t"]:
+                if c is None or c.get("done") is None or c["done"]["kind"] != "adopt-returned" or c["done"]["seq"] > q_seq or c["done"]["t"] + 0.5 + S.stall_total > quiescent["t"]:
                     continue  # never submitted (its submitter did not get there) or reported above
                 by = c["call"]["by"]
                 byfl = specs[by]["flavour"] if by in specs else ("main" if by == "main" else "thread")
@@ -192,7 +192,7 @@ def check(h, reason):
                     V("C03/lost/%s/%s/by-%s/%s%s" % (fl, via, byfl, phase, "/same-callable" if want > 1 else ""), "%s payload %s (via %s, handed to adopt %d time(s) by %s, last at seq %d, adopt returned) was started %d time(s) before quiescence (seq %d)" % (fl, pid, via, want, by, c["call"]["seq"], n, q_seq))
             else:
                 created = next((e for e in ev if e["kind"] == "service-created" and e["pid"] == pid and e["seq"] < q_seq), None)
-                if created is None or created["t"] + 3 * h.knobs.get("accept_delay", 0.25) + 0.5 > quiescent["t"]:
+                if created is None or created["t"] + 3 * h.knobs.get("accept_delay", 0.25) + 0.5 + S.stall_total > quiescent["t"]:
                     continue  # fewer than three polling cycles before the quiescence mark
                 dropped = spec.get("drop_immediately") or any(e["kind"] == "drop-ref" and e["pid"] == pid and e["seq"] < q_seq for e in ev)
                 if n == 0 and not dropped:
